@@ -159,9 +159,11 @@ impl ServerState {
           &mut error_set,
         );
         self.string_sources.insert(new_mod_ref, source);
+        // The signature mentions its own module reference (class types, locations),
+        // so it has to be rebuilt under the new name instead of being moved.
+        self.global_cx.remove(&old_mod_ref);
+        self.global_cx.insert(new_mod_ref, build_module_signature(new_mod_ref, &parsed));
         self.parsed_modules.insert(new_mod_ref, parsed);
-        let mod_cx = self.global_cx.remove(&old_mod_ref).unwrap();
-        self.global_cx.insert(new_mod_ref, mod_cx);
       }
       self.checked_modules.remove(&old_mod_ref);
     }
